@@ -24,8 +24,9 @@ pub struct C10;
 
 #[derive(Debug, Clone)]
 pub struct Case {
-    /// (file, framed with the iterator encoder, corrupt one payload byte at this fraction)
-    pub files: Vec<(CFile, bool, Option<u16>)>,
+    /// (file, framed with the iterator encoder, corrupt one payload byte at this fraction, send this raw
+    /// payload - G1 shapes, not an SML file - instead)
+    pub files: Vec<(CFile, bool, Option<u16>, Option<crate::gen::payload::SizedPayload>)>,
     pub noises: Vec<Noise>,
     pub source: u8,
     pub buffer: u8,
@@ -427,7 +428,7 @@ pub fn eval_input(i: &Input, obs: &mut Obs) -> Result<(), Fail> {
 
 impl Prop for C10 {
     const ID: &'static str = "C10";
-    const RULE: &'static str = "k in 0..5 (thorough 0..9) G4 files, each framed by encode or encode_streaming, separated and surrounded by G3 noise (possibly empty; suffix classes: 0x1b runs, partial start sequences, end look-alikes), read through SmlReader over {slice, iterator, io::Read (a one-byte-at-a-time reader that also reports ErrorKind::Interrupted at 0..3 positions, which std::io consumers must retry)} with {default 8 KiB, ArrayBuf<N >= max|F|>, Vec} buffers under a per-call script choosing read vs next, blocking vs non-blocking API (read_nb / next_nb) and the target type (DecodedBytes, File, Parser). One payload in ten has a flipped bit (then File must be a parse error and Parser must yield the events before the rejection, then an error). Oracle: constructed expectation - for each i DiscardedBytes(|g_i|) if the noise is non-empty, then file i in the requested representation (bytes == payload, File == independent reading R3, Parser events == R3 events); after the last frame IoErr(Eof, |g_k|) once if |g_k| > 0, then next -> None / read -> IoErr(Eof, 0) on three further calls; in one case out of four the capture ends inside one more transmission (cut right after its start sequence, inside it, or anywhere): then DiscardedBytes(|g_k|) and IoErr(Eof, number of bytes of the unfinished transmission) are expected; and transport::decode + complete::parse composed by hand give the same. Non-trivial: >= 2 files with at least one non-empty noise, or >= 2 different target types in one script. Distinct = distinct inputs.";
+    const RULE: &'static str = "k in 0..5 (thorough 0..9) G4 files, each framed by encode or encode_streaming, separated and surrounded by G3 noise (possibly empty; suffix classes: 0x1b runs, partial start sequences, end look-alikes), read through SmlReader over {slice, iterator, io::Read (a one-byte-at-a-time reader that also reports ErrorKind::Interrupted at 0..3 positions, which std::io consumers must retry)} with {default 8 KiB, ArrayBuf<N >= max|F|>, Vec} buffers under a per-call script choosing read vs next, blocking vs non-blocking API (read_nb / next_nb) and the target type (DecodedBytes, File, Parser). One payload in ten has a flipped bit and one in seven is not an SML file at all but a G1 payload (tail shapes: 0x1b runs, zero runs, alignment); then DecodedBytes must still be exactly the payload, File a parse error and Parser the events the reference reads before its rejection, then an error. Oracle: constructed expectation - for each i DiscardedBytes(|g_i|) if the noise is non-empty, then file i in the requested representation (bytes == payload, File == independent reading R3, Parser events == R3 events); after the last frame IoErr(Eof, |g_k|) once if |g_k| > 0, then next -> None / read -> IoErr(Eof, 0) on three further calls; in one case out of four the capture ends inside one more transmission (cut right after its start sequence, inside it, or anywhere): then DiscardedBytes(|g_k|) and IoErr(Eof, number of bytes of the unfinished transmission) are expected; and transport::decode + complete::parse composed by hand give the same. Non-trivial: >= 2 files with at least one non-empty noise, or >= 2 different target types in one script. Distinct = distinct inputs.";
     type Case = Case;
     type Input = Input;
 
@@ -440,7 +441,7 @@ impl Prop for C10 {
         (0..maxk)
             .prop_flat_map(|k| {
                 (
-                    vec((cfile(false), any::<bool>(), prop::option::weighted(0.1, any::<u16>())), k),
+                    vec((cfile(false), any::<bool>(), prop::option::weighted(0.1, any::<u16>()), prop::option::weighted(0.15, crate::gen::payload::moderate_payload())), k),
                     vec(prop_oneof![2 => Just(Noise { toks: vec![], suffix: crate::gen::stream::NSuffix::None }), 3 => noise(300, true)], k + 1),
                     0u8..3,
                     0u8..3,
@@ -458,7 +459,10 @@ impl Prop for C10 {
             files: c
                 .files
                 .iter()
-                .map(|(f, s, corrupt)| {
+                .map(|(f, s, corrupt, raw)| {
+                    if let Some(p) = raw {
+                        return (p.bytes(), *s);
+                    }
                     let mut b = write(f).bytes;
                     if let (Some(x), false) = (corrupt, b.is_empty()) {
                         let k = ((*x as usize) * b.len()) >> 16;
